@@ -132,15 +132,30 @@ class SieveClient:
             self.pos = end
             self.responses.append(resp)
 
+    #: random.Random or None: cut what is sent into pieces and let the server
+    #: run between their arrivals (the wire does not preserve write sizes)
+    chunk_rng = None
+
     def send(self, data: bytes) -> None:
         self.world.log('sieve-cmd', self.sid, data[:40])
-        self.conn.send(data)
+        rng = self.chunk_rng
+        if rng is None or len(data) < 2:
+            self.conn.send(data)
+            return
+        chunks = []
+        left = len(data)
+        while left > 0:
+            n = min(left, rng.choice([1, 2, 3, 5, 8, 16, 40, 200]))
+            chunks.append(n)
+            left -= n
+        self.conn.send(data, chunks)
 
     def command(self, data: bytes, horizon: float = 1.0) -> SieveResp | None:
         """Send one command and run until its response arrived."""
         before = len(self.responses)
         self.send(data)
-        self.world.run(horizon, None, [])
+        # with a scheduler PRNG deliveries and server steps interleave
+        self.world.run(horizon, self.chunk_rng, [])
         if len(self.responses) > before:
             return self.responses[before]
         return None
